@@ -435,8 +435,11 @@ func CheckMain(args []string) int {
 		}
 	}
 	sideCount := map[string]int{}
-	for _, v := range side {
+	for i, v := range side {
 		sideCount[v.Prop]++
+		if i < 8 {
+			fmt.Printf("  side observation (not judged by this check) %s case=%d %s: %s\n", v.Prop, v.Case, v.Sig, v.Msg)
+		}
 	}
 	wall := time.Since(start).Seconds()
 	cov := map[string]interface{}{
